@@ -449,6 +449,153 @@ theorem mid_le_capacity (F : FloatOps) (hF : FloatOK F) (cap unallocated nodeUnu
   Int.le_trans (mid_policy_bounds F hF cap unallocated nodeUnused reclaimable unallocPct thrPct hcap hu hp ht).2
     (hF.mul_le _ _ hcap ht ht')
 
+/-! ### 4b. antitone at the raw input level (before metric lookup / dangling detection) -/
+
+theorem All2.refl {α : Type} {R : α → α → Prop} (hR : ∀ a, R a a) : ∀ l : List α, All2 R l l
+  | [] => .nil
+  | a :: as => .cons (hR a) (All2.refl hR as)
+
+theorem All2.map_same {α β : Type} {R : β → β → Prop} (f g : α → β) (l : List α) (h : ∀ x ∈ l, R (f x) (g x)) :
+    All2 R (l.map f) (l.map g) := by
+  induction l with
+  | nil => exact .nil
+  | cons x xs ih => exact .cons (h x (by simp)) (ih (fun y hy => h y (by simp [hy])))
+
+theorem All2.filter {α : Type} {R : α → α → Prop} (p : α → Bool) (l l' : List α) (h : All2 R l l')
+    (hp : ∀ a b, R a b → p a = p b) : All2 R (l.filter p) (l'.filter p) := by
+  induction h with
+  | nil => exact .nil
+  | @cons a b as bs hab _ ih =>
+    simp only [List.filter_cons, ← hp a b hab]
+    split
+    · exact .cons hab ih
+    · exact ih
+
+/-- raw pod `q` is raw pod `p` with a raised request. -/
+def PodInLe (p q : PodIn) : Prop :=
+  p.key = q.key ∧ p.active = q.active ∧ p.prio = q.prio ∧ p.qos = q.qos ∧ p.numa = q.numa ∧ p.reqC ≤ q.reqC ∧ p.reqM ≤ q.reqM
+
+/-- metric entry `m'` is entry `m` with raised usage. -/
+def MetInLe (m m' : Metric) : Prop := m.key = m'.key ∧ m.prio = m'.prio ∧ m.usedC ≤ m'.usedC ∧ m.usedM ≤ m'.usedM
+
+theorem resolvePods_mono_req (mm : List Metric) (pods pods' : List PodIn) (h : All2 PodInLe pods pods') :
+    All2 PodLe (resolvePods pods mm) (resolvePods pods' mm) := by
+  unfold resolvePods
+  induction h with
+  | nil => exact .nil
+  | @cons a b as bs hab _ ih =>
+    obtain ⟨hk, ha, hp, hq, hn, hc, hm⟩ := hab
+    simp only [List.filter_cons, ← ha, ← hp]
+    split
+    · simp only [List.map_cons]
+      refine .cons ?_ ih
+      rw [← hk]
+      cases findMetric mm a.key <;> simp [PodLe, hq, hn, hc, hm]
+    · exact ih
+
+theorem any_active_key_congr (pods pods' : List PodIn) (h : All2 PodInLe pods pods') (k : Nat) :
+    pods.any (fun p => p.active && p.key == k) = pods'.any (fun p => p.active && p.key == k) := by
+  induction h with
+  | nil => rfl
+  | @cons a b as bs hab _ ih =>
+    obtain ⟨hk, ha, _⟩ := hab
+    simp only [List.any_cons, ih, hk, ha]
+
+theorem dangling_congr_req (mm : List Metric) (pods pods' : List PodIn) (h : All2 PodInLe pods pods') :
+    dangling pods mm = dangling pods' mm := by
+  unfold dangling
+  congr 1; funext m
+  rw [any_active_key_congr pods pods' h m.key]
+
+/-- raising any listed pod's request (raw input, before metric lookup) never raises the node amount. -/
+theorem batch_antitone_raw_request (F : FloatOps) (hF : FloatOK F) (k : PrioConsts) (s : Strategy) (n : NodeIn)
+    (hs : List HostApp) (ms : List Metric) (pods pods' : List PodIn) (d : Dim) (hcap : 0 ≤ n.cap d)
+    (h : All2 PodInLe pods pods') :
+    nodeBatch F k s n hs pods' ms d ≤ nodeBatch F k s n hs pods ms d := by
+  unfold nodeBatch
+  simp only
+  rw [← dangling_congr_req _ pods pods' h]
+  exact batch_antitone F hF k s s n n hs hs _ _ _ _ d rfl rfl (Int.le_refl _) rfl hcap (Int.le_refl _) (Int.le_refl _)
+    (Int.le_refl _) (All2.refl (fun a => ⟨rfl, Int.le_refl _, Int.le_refl _⟩) hs)
+    (resolvePods_mono_req _ pods pods' h) (All2.refl (fun a => ⟨Int.le_refl _, Int.le_refl _⟩) _)
+
+theorem any_key_congr (l l' : List Metric) (h : All2 MetInLe l l') (k : Nat) :
+    l.any (fun x => x.key == k) = l'.any (fun x => x.key == k) := by
+  induction h with
+  | nil => rfl
+  | @cons a b as bs hab _ ih => simp only [List.any_cons, ih, hab.1]
+
+theorem metricMap_mono (ms ms' : List Metric) (h : All2 MetInLe ms ms') : All2 MetInLe (metricMap ms) (metricMap ms') := by
+  unfold metricMap
+  induction h with
+  | nil => exact .nil
+  | @cons a b as bs hab _ ih =>
+    simp only [List.foldr_cons]
+    rw [any_key_congr _ _ ih a.key, hab.1]
+    split
+    · exact ih
+    · exact .cons hab ih
+
+theorem findMetric_mono (mm mm' : List Metric) (h : All2 MetInLe mm mm') (k : Nat) :
+    (findMetric mm k = none ∧ findMetric mm' k = none) ∨
+    (∃ a b, findMetric mm k = some a ∧ findMetric mm' k = some b ∧ MetInLe a b) := by
+  unfold findMetric
+  induction h with
+  | nil => left; simp
+  | @cons a b as bs hab _ ih =>
+    simp only [List.find?_cons, ← hab.1]
+    cases hk : (a.key == k)
+    · exact ih
+    · right; exact ⟨a, b, rfl, rfl, hab⟩
+
+theorem resolvePods_mono_met (pods : List PodIn) (mm mm' : List Metric) (h : All2 MetInLe mm mm') :
+    All2 PodLe (resolvePods pods mm) (resolvePods pods mm') := by
+  unfold resolvePods
+  apply All2.map_same
+  intro p _
+  rcases findMetric_mono mm mm' h p.key with ⟨h1, h2⟩ | ⟨a, b, h1, h2, hab⟩
+  · simp [h1, h2, PodLe]
+  · obtain ⟨_, _, hc, hm⟩ := hab
+    simp [h1, h2, PodLe, hc, hm]
+
+theorem dangling_mono_met (pods : List PodIn) (mm mm' : List Metric) (h : All2 MetInLe mm mm') :
+    All2 MetLe (dangling pods mm) (dangling pods mm') := by
+  unfold dangling
+  have := All2.filter (R := MetInLe) (fun m => !(pods.any (fun p => p.active && p.key == m.key)) && isHP m.prio) mm mm' h
+    (fun a b hab => by simp only [hab.1, hab.2.1])
+  clear h
+  generalize List.filter _ mm = l at this
+  generalize List.filter _ mm' = l' at this
+  induction this with
+  | nil => exact .nil
+  | cons hab _ ih => exact .cons ⟨hab.2.2.1, hab.2.2.2⟩ ih
+
+/-- raising the reported usage of any pod metric entry (listed, dangling or duplicate) never raises the node amount. -/
+theorem batch_antitone_raw_usage (F : FloatOps) (hF : FloatOK F) (k : PrioConsts) (s : Strategy) (n : NodeIn)
+    (hs : List HostApp) (pods : List PodIn) (ms ms' : List Metric) (d : Dim) (hcap : 0 ≤ n.cap d)
+    (h : All2 MetInLe ms ms') :
+    nodeBatch F k s n hs pods ms' d ≤ nodeBatch F k s n hs pods ms d := by
+  unfold nodeBatch
+  simp only
+  have hm := metricMap_mono ms ms' h
+  exact batch_antitone F hF k s s n n hs hs _ _ _ _ d rfl rfl (Int.le_refl _) rfl hcap (Int.le_refl _) (Int.le_refl _)
+    (Int.le_refl _) (All2.refl (fun a => ⟨rfl, Int.le_refl _, Int.le_refl _⟩) hs)
+    (resolvePods_mono_met pods _ _ hm) (dangling_mono_met pods _ _ hm)
+
+/-! ### 2b. the charged amounts versus the literal reading of the statement -/
+
+/-- maxUsageRequest charges exactly "the larger of both" in the statement's sense. -/
+theorem chargeMax_eq_literal (d : Dim) (p : RPod) : chargeMax d p = max (p.req d) (literalUse d p) := by
+  unfold chargeMax literalUse
+  cases p.hasMetric <;> simp
+
+/-- zone level: the charged usage share is at least the share of the literal usage. -/
+theorem zChargeUsed_ge_literal (F : FloatOps) (hF : FloatOK F) (zn i : Nat) (d : Dim) (hzn : 0 < zn) (p : RPod) (h : LSEok p) :
+    zoneShare F zn p.numa i (milli d (literalUse d p)) ≤ zChargeUsed F zn i d p := by
+  unfold zChargeUsed literalUse zReq zUse
+  cases hm : p.hasMetric <;> cases hl : p.lse <;> cases d <;> simp [RPod.req, RPod.used]
+  exact zoneShare_mono F hF zn _ i _ _ hzn (milli_mono .cpu _ _ (h hl hm))
+
 /-! ### class resolution facts used by the statement ("high-priority" = neither batch nor free) -/
 
 theorem hp_iff (p : Prio) : isHP p = true ↔ (p ≠ .batch ∧ p ≠ .free) := by
